@@ -122,6 +122,7 @@ class Program:
         self._alpha_ref = None
         self._known_functions = None
         self._known_constants = None
+        self._known_params = None
         if alpha:
             from . import alpha as _alpha
             verif = os.path.dirname(os.path.dirname(os.path.abspath(__file__)))
@@ -134,6 +135,7 @@ class Program:
                 self._known_functions = set(d_['functions'])
                 self._known_constants = {m: set(v) for m, v in d_.get('constants', {}).items()} \
                     if 'constants' in d_ else None
+                self._known_params = d_.get('params')
         self.modules = {}
         self.classes = {}
         self.functions = {}
@@ -192,6 +194,8 @@ class Program:
         self.folded_constants = []
         if self._known_functions is not None:
             self.renamed = _inline.undo_renames(trees, self._known_functions)
+            if self._known_params is not None:
+                self.renamed += _inline.undo_param_renames(trees, self._known_params)
             if self._known_constants is not None:
                 self.folded_constants = _inline.fold_new_constants(trees, self._known_constants)
                 if self.folded_constants:
